@@ -262,7 +262,7 @@ def run(ctx):
         import copy
         c = copy.deepcopy(recs[len(recs) // 2])
         c["id"] = 10 ** 6
-        c["lines"][-1] = c["lines"][-1] + "0" if c["lines"] else "x 1"
+        c["lines"][-1] = "zz" + c["lines"][-1] if c["lines"] else "x 1"       # a sample line that belongs to no family
         c2 = copy.deepcopy(recs[0]); c2["id"] = 10 ** 6 + 1
         if c2["exp"] and c2["exp"][0]["metrics"]:
             c2["exp"][0]["metrics"][0]["labels"] = c2["exp"][0]["metrics"][0]["labels"] + [[codes("zz"), codes("q")]]
